@@ -760,13 +760,20 @@ func c11Gen(tier string, rng *rand.Rand, emit func(Case)) {
 		if batched {
 			kind = "batched"
 		}
-		emit(Case{Line: fmt.Sprintf("use %d %d %s %s", rng.Intn(3), rng.Intn(3), strings.Join(specs, ","), strings.Join(toks, " ")), Kind: kind})
+		ne, nv := rng.Intn(3), rng.Intn(3)
+		if i%8 == 3 {
+			// many hooks (an application with a hook per subsystem): every one of them is called
+			ne, nv = []int{3, 4, 5, 7, 9, 17}[rng.Intn(6)], []int{0, 3, 4, 5, 8}[rng.Intn(5)]
+			kind += "-many-hooks"
+		}
+		emit(Case{Line: fmt.Sprintf("use %d %d %s %s", ne, nv, strings.Join(specs, ","), strings.Join(toks, " ")), Kind: kind})
 	}
 }
 
 func init() {
 	register(&Prop{
-		ID: "C03", Gen: c03Gen, Impl: useImpl, Oracle: withUseReference(c03Oracle),
+		ID: "C03", Gen: func(tier string, rng *rand.Rand, emit func(Case)) { c03Gen(tier, rng, viaReaderTwins(emit)) }, Impl: useImpl,
+		Oracle: func(line, out string) string { return withUseReference(c03Oracle)(directLine(line), out) },
 		FindingKey: func(line, out, clause string) string { return clause },
 		Nontrivial: func(line, out string) bool { return strings.Count(line, " b1:") >= 2 },
 		NoShrink:   true, Timeout: 30 * time.Second,
@@ -774,7 +781,8 @@ func init() {
 		Assumptions: []string{"a DONE with final status is the last package of its response (TDS: it ends the response)", "a round is started only after its response has arrived completely (reads that wait for packets are covered by the Lean model `blocked` and by C14)"},
 	})
 	register(&Prop{
-		ID: "C11", Gen: c11Gen, Impl: useImpl, Oracle: withUseReference(c11Oracle),
+		ID: "C11", Gen: func(tier string, rng *rand.Rand, emit func(Case)) { c11Gen(tier, rng, viaReaderTwins(emit)) }, Impl: useImpl,
+		Oracle: func(line, out string) string { return withUseReference(c11Oracle)(directLine(line), out) },
 		FindingKey: func(line, out, clause string) string { return clause },
 		Nontrivial: func(line, out string) bool { return !strings.HasSuffix(out, "H=[]") },
 		NoShrink:   true, Timeout: 30 * time.Second,
